@@ -429,6 +429,7 @@ def c07_shards(tier, seed):
     out.append({'family': 'c07', 'shape': 'named', 'hint': 'Unspecified', 'variant': 'parent'})
     out.append({'family': 'c07', 'shape': 'named', 'hint': 'Struct', 'variant': 'parent'})
     out.append({'family': 'c07', 'shape': 'named', 'hint': 'Unspecified', 'variant': 'bareparent'})
+    out.append({'family': 'c07', 'shape': 'named', 'hint': 'Unspecified', 'variant': 'enum'})
     return out
 
 
@@ -440,6 +441,15 @@ def make_c07(sh):
         traits = [TraitInstr('map', 'X', hint=hint, tag='t1'), TraitInstr('try_map', 'X', hint=hint, err='Er', tag='t2'),
                   TraitInstr('into_existing', 'X', hint=hint, tag='t3'), TraitInstr('try_into_existing', 'X', hint=hint, err='Er', tag='t4')]
         ren = ('n', 'zz') if (hint == 'Struct' or (hint == 'Unspecified' and shape == 'named')) else ('i', 0)
+        if variant == 'enum':
+            # an enum under map + try_map (eight flavours; into_existing on enums is a known C17 finding): variant-level rename / expression
+            # with a symbolic instruction name, a ghost variant, a tuple payload with a renamed field, a struct payload
+            etraits = [TraitInstr('map', 'X', tag='t1'), TraitInstr('try_map', 'X', err='Er', tag='t2')]
+            v0 = Member('A', shape='unit', instrs=[MapInstr(Ch('v0n', ['map', 'from', 'owned_into', 'ref_into', 'try_map', 'from_ref']), member=('n', 'Az'), tag='e0')])
+            v1 = Member('B', shape='tuple', fields=[Member(None, instrs=[MapInstr('map', member=('i', 1), tag='f0')]), Member(None, instrs=[MapInstr('map', member=('i', 0), tag='f1')])])
+            v2 = Member('C', shape='named', fields=[Member('x', instrs=[MapInstr(Ch('f2n', ['map', 'ref_into', 'try_from']), member=('n', 'xx'), action=Ch('f2a', [None, '__f2(~)']), tag='f2')]), Member('y')])
+            v3 = Member('D', shape='unit', instrs=[GhostInstr(Ch('v3g', ['ghost', 'ghost_owned', 'ghost_ref']), action='{ __gv(@) }', tag='gv')])
+            return Spec('enum', traits=etraits, members=[v0, v1, v2, v3])
         if variant == 'bareparent':
             # bare #[parent]: produced by (try_)into() from the whole counterpart, poured with (try_)into_existing into it
             return Spec('struct', shape=shape, traits=traits, members=[Member(nm('b'), instrs=[MapInstr(Ch('m1n', ['map', 'into', 'owned_into']), member=Ch('m1m', [None, ('n', 'yy')]), tag='e1')]),
